@@ -126,7 +126,8 @@ def roundtrip(obj, medium, diff, what, full=True):
         if full and kind == 'hdf5':
             try:
                 snap = copy.deepcopy(obj)
-            except Exception:  # noqa: BLE001  (reported by the 'deepcopy' medium)
+                snap = None if Diff(ident=None).diff(obj, snap) else snap
+            except Exception:  # noqa: BLE001  (a broken deepcopy is reported by the 'deepcopy' medium, not here)
                 pass
         try:
             new = MEDIA[medium](obj)
@@ -135,7 +136,7 @@ def roundtrip(obj, medium, diff, what, full=True):
             return bad(stage, '%s: %s' % (type(e).__name__, e), _slug)
         d = snap is not None and Diff(ident=None).diff(snap, obj)
         if d:
-            return bad('original-modified', d)
+            return bad('original-modified', d)  # (saving must not change the object that is saved)
         d = diff.diff(obj, new)
         if d:
             out, v = bad('differs', d)
